@@ -61,3 +61,8 @@ Proof. vm_compute. reflexivity. Qed.
    wrappers directly, or call the factory on another class, fail here) *)
 Lemma sweep_wrap_sites : forallb site_ok wrap_sites = true.
 Proof. vm_compute. reflexivity. Qed.
+
+(* no __init__ writes to the element when it merely wraps an existing node (F55 was such a write; a public setter or a
+   property assignment outside `if self._do_init:` fails here) *)
+Lemma sweep_wrap_writes : wrap_writes = [].
+Proof. vm_compute. reflexivity. Qed.
